@@ -183,6 +183,12 @@ theorem photon_loss_on_mixture (n : Nat) (r : Rat) (m : Mixture) :
 theorem reduce_keeps_state (n : Nat) (m : Mixture) (hm : MixN n m) : mixRho n (Mix.reduce m.length m) = mixRho n m :=
   mixRho_reduce n m.length m (Nat.le_refl _) hm
 
+/-- observation D11 as a kernel-checked fact: because `reduce()` pops from the list it is enumerating, three equal branches
+    are merged into *two* (`[2/3, 1/3]`), not one — harmless for the property by `reduce_keeps_state` / `reduce_keeps_weight` -/
+theorem reduce_under_merges :
+    ((Mix.reduce 3 [(1/3, (Tab.ket0 1).norm), (1/3, (Tab.ket0 1).norm), (1/3, (Tab.ket0 1).norm)]).map fun x => x.1)
+      = [2/3, 1/3] := by decide +kernel
+
 /-- the executable `mixtureDensity` (what the driver evaluates) is `Σ_k w_k ρ(T_k)` -/
 theorem mixtureDensity_is_mixRho (n : Nat) (m : Mixture) (hm : MixN n m) :
     toC n (mixtureDensity n m) = mixRho n m ∧ (mixtureDensity n m).n = 2 ^ n := toC_mixtureDensity n m hm
